@@ -26,6 +26,10 @@ structure Facts12 where
   memoPublish : PublishOrder
   /-- `cdict.__getitem__`: `self[cls] = retval` -/
   cdictPublish : PublishOrder
+  /-- `set_out_protocol`: the not yet bound protocol instance is bound by one `set_app` call -/
+  bindPublish : PublishOrder
+  /-- binding an instance that is already bound to the same application raises (behaviour probe) -/
+  rebindRaises : Bool
   /-- `XmlDocument.__validate_lxml` -/
   errRead : ErrRead
   /-- shared locations (outside the modelled caches) that a request was observed to write -/
@@ -41,14 +45,16 @@ def Facts12.rfacts (F : Facts12) : RFacts where
     | .sort => F.sortPublish
     | .memo => F.memoPublish
     | .cdict => F.cdictPublish
+    | .bind => F.bindPublish
   errRead := F.errRead
   ctxShared := fun _ => !F.sharedContextCells.isEmpty
+  rebindRaises := F.rebindRaises
 
 /-- the values every C12 theorem needs -/
 def Facts12.Good (F : Facts12) : Prop :=
   F.wsdlSkeleton = expectedSkeleton ∧ F.builderResets = true ∧ F.attrPublish = .afterInit ∧ F.sortPublish = .afterInit ∧
   F.memoPublish = .afterInit ∧ F.cdictPublish = .afterInit ∧ F.errRead = .underLock ∧ F.parked = [] ∧
-  F.sharedContextCells = []
+  F.sharedContextCells = [] ∧ F.bindPublish = .afterInit ∧ F.rebindRaises = false
 
 instance (F : Facts12) : Decidable F.Good := by unfold Facts12.Good; infer_instance
 
